@@ -27,6 +27,9 @@ type Client struct {
 	inbox    []refcodec.Tran
 	drained  int
 	FrameErr error // first re-framing error of this client's stream
+	// LastWhy says why the last Call returned ok=false ("" after a successful call); a reason starting with "watchdog"
+	// is a wall-clock limit of the harness, not an observation about the server.
+	LastWhy string
 	// WideInts makes Agreed send its integer fields (icon, options) in the 4-byte encoding, which the protocol allows
 	// as well as the 2-byte one.
 	WideInts bool
@@ -177,6 +180,7 @@ func (c *Client) Call(typ int, fields ...refcodec.Field) (refcodec.Tran, bool) {
 func (c *Client) await(id uint32) (refcodec.Tran, bool) {
 	deadline := time.Now().Add(Watchdog)
 	scanned := 0
+	c.LastWhy = ""
 	check := func() (refcodec.Tran, bool) {
 		in := c.Inbox()
 		for ; scanned < len(in); scanned++ {
@@ -193,11 +197,17 @@ func (c *Client) await(id uint32) (refcodec.Tran, bool) {
 		if c.Conn.Idle() {
 			// request consumed and handled; outputs may still be in flight
 			if !c.Srv.Quiesce(Watchdog) {
+				c.LastWhy = "watchdog: the server did not become quiescent"
 				return refcodec.Tran{}, false
 			}
-			return check()
+			t, ok := check()
+			if !ok {
+				c.LastWhy = "the request was consumed and the server is quiescent, but no reply was written"
+			}
+			return t, ok
 		}
 		if time.Now().After(deadline) {
+			c.LastWhy = "watchdog: the request was not consumed in time"
 			return refcodec.Tran{}, false
 		}
 		time.Sleep(30 * time.Microsecond)
